@@ -1,11 +1,11 @@
-\* C20: thorough: every case on <= 4 modules without self-dependencies (4096 graphs on 4), calls in name order, every listing, optionally one missing module
+\* C20: thorough: every case on <= 4 modules without self-dependencies (4096 graphs on 4), calls in name order, every listing (a missing module: ModLoad_orders.cfg and the drawn cases)
 SPECIFICATION Spec
 CONSTANTS
     Source = "enum"
     MaxN = 4
     SelfLoops = FALSE
     DepOrders = "asc"
-    WithMissing = TRUE
+    WithMissing = FALSE
     WithAnti = FALSE
     Bug = "none"
 INVARIANTS
